@@ -199,9 +199,35 @@ def check_two_tree(ctx):
     ctx.expect(paths, ret=2)
 
 
+def check_state_change(ctx):
+    install_exc(ctx.eng)
+    ctx.eng.max_strlen = 64
+    x = ctx.sym("x", 32)
+    paths = ctx.run("k_state_change", [x])
+    kinds = set()
+    for q in paths:
+        if q.status != "ret":
+            ctx.fail(q, "ended %s %s" % (q.status, q.info))
+            continue
+        lg = q.user.get("log") or []
+        mark = [e for e in lg if e[0] == 24][0]
+        A, NEW = conc(mark[1]), conc(mark[2])
+        kinds.add(bool([e for e in lg if e[0] == 63]))
+        seq = [("in" if e[0] == 50 else "out", conc(e[1]), conc(e[3])) for e in lg if e[0] in (50, 51)]
+        want = [("in", INVOKE, A), ("out", CALLBACK, A), ("in", CALLBACK, NEW), ("out", INVOKE, NEW)]
+        fin = [e for e in lg if e[0] == 26]
+        ctx.require(q, z3.BoolVal(seq == want and bool(fin) and conc(fin[0][1]) == NEW),
+                    "a transition state replaced during an invocation is the one carried by every later notification, on the normal and on the aborting exit (got %s)" % (seq,))
+    if kinds != {True, False}:
+        ctx.inconclusive.append("state change: did not see both the normal and the aborting exit")
+    ctx.only(paths, "ret")
+    ctx.expect(paths, ret=2)
+
+
 def jobs(tier, seed):
     from specs.C13 import NOOP, DYLIB
-    two = [Job("C19_noop_two", NOOP + '#include "C19_two.inc"\n', [dict(name="noop two sandboxes, nested visit may abort", fn=check_two_tree, unwind=400)], native=False,
+    two = [Job("C19_noop_two", NOOP + '#include "C19_two.inc"\n', [dict(name="noop two sandboxes, nested visit may abort", fn=check_two_tree, unwind=400),
+                                                                     dict(name="noop transition state replaced during an invocation", fn=check_state_change, unwind=400)], native=False,
                flags=["-D_GLIBCXX_EXTERN_TEMPLATE=0"]),
            Job("C19_dylib_two", DYLIB + '#include "C19_two.inc"\n', [dict(name="dylib two sandboxes, nested visit may abort", fn=check_two_tree, unwind=400)], native=False,
                flags=["-D_GLIBCXX_EXTERN_TEMPLATE=0"])]
